@@ -89,6 +89,21 @@ func VerifDeployStatus(arg string) {
 	vCover("deployment-creates-something", okCount > 0)
 	vCover("deployment-fails-part-way", okCount > 0 && okCount < vConcrete(count))
 	vAssert("C13/count-never-below-recorded-workloads", !belowRecorded)
+	// the counts the store reports feed the strategy: with the status of THIS application
+	// entrypoint AUTO evens the totals out (C03's rule, observed end to end when nothing failed)
+	if w.site == "" && okCount == vConcrete(count) {
+		total := map[string]int{}
+		for _, n := range nodes {
+			total[n] = prior[n] + planned[n]
+		}
+		for _, x := range nodes {
+			for _, y := range nodes {
+				if x != y && planned[x] > 0 && planned[y] < vConcrete(w.slots[y]) {
+					vAssert("C13/deploy-status-reaches-the-strategy", total[x] <= total[y]+1)
+				}
+			}
+		}
+	}
 	for _, n := range nodes {
 		vObserve("max_seen_"+n, maxSeen[n])
 		vAssert("C13/count-never-exceeds-prior-plus-planned", maxSeen[n] <= prior[n]+planned[n])
